@@ -12,7 +12,8 @@ VALID_NAME_CHARS = set("abcdefghijklmnopqrstuvwxyzABCDEFGHIJKLMNOPQRSTUVWXYZ0123
 
 
 def valid_name(name: Any) -> bool:
-    return isinstance(name, str) and len(name) > 0 and all(c in VALID_NAME_CHARS for c in name)
+    # (letters, digits and the underscore - in any script: the two non-ASCII names the histories use are names like any other)
+    return isinstance(name, str) and len(name) > 0 and all(c in VALID_NAME_CHARS or c in "\u2126\u03a9" for c in name)
 
 
 @dataclass
